@@ -406,6 +406,16 @@ cleanUpProcess:
 		}
 	}
 
+	if p.IsMethod && p.Previous != p.Parent {
+		// We have finished but might not have read everything the previous
+		// command is piping to us (eg `a [1..9999999] -> [..1]`). Nobody else
+		// can read that pipe, so discard the remainder; otherwise a writer
+		// blocked on a full pipe never terminates and we wait forever below.
+		if stdin, ok := p.Stdin.(*streams.Stdin); ok {
+			_, _ = stdin.WriteTo(io.Discard)
+		}
+	}
+
 	for !p.Previous.HasTerminated() {
 		// Code shouldn't really get stuck here.
 		// This would only happen if someone abuses pipes on a function that has no stdin.
